@@ -158,6 +158,32 @@ CHECKS = {'C01': {'level': 'exploration',
                     'checks': {'quick': 60, 'thorough': 1500},
                     'shards': {'quick': 1, 'thorough': 2},
                     'timeout': {'quick': 900, 'thorough': 3400}}]},
+ 'C10': {'level': 'exploration',
+         'rule': 'workload invariant: every row always holds a, b, c with a == -b == c; a writer transaction changes all three columns of its rows '
+                 'together (puts, merges) or deletes a row and inserts a new one. Mode 1 (latch-held, controlled): the writer is parked by the '
+                 'commit:mid-apply hook after a drawn number of its apply steps (after the row markers, after each column buffer) WITH the block '
+                 'write latch held; 1..3 readers in the styles QueryAt / Range / With(index).Range / WithInt.Range then run as may-block steps (4 '
+                 'ms): on correct code readers of that block block and later see a whole state; cases drawn by rapid plus an exhaustive sweep (1 '
+                 'writer x {put, merge, delete+insert} x mid-apply points 1..8 x 4 reader styles x 1..2 blocks). Mode 2 (free parallelism): 1..6 '
+                 'writers and 2..10 readers hammer the same rows for a fixed time. Oracle, evaluated INSIDE one read callback and independent of '
+                 'timing: presence of a, b, c is all-or-none and, when present, a + b == 0 and c == a. non-trivial = mode 1: the writer was parked '
+                 'mid-commit (>=1 apply step done, latch held) while readers ran; mode 2: a reader observed >=3 distinct committed versions of one '
+                 'row; distinct = the generated case',
+         'assumptions': ["mode 1 decides by the invariant, never by timing: a slow machine can only make a reader count as 'blocked' (weaker), not "
+                         'produce an alarm',
+                         'rows whose three columns are all absent are not judged (deleted after the reader selected them, or an in-flight '
+                         'reservation = known finding f10)',
+                         'mode 2 is not bit-reproducible'],
+         'tests': [{'run': '^TestC10Latched$',
+                    'checks': {'quick': 800, 'thorough': 10000},
+                    'shards': {'quick': 1, 'thorough': 8},
+                    'timeout': {'quick': 900, 'thorough': 3400}},
+                   {'run': '^TestC10LatchedExhaustive$', 'timeout': {'quick': 900, 'thorough': 3400}},
+                   {'run': '^TestC10Parallel$',
+                    'checks': {'quick': 6, 'thorough': 200},
+                    'shards': {'quick': 1, 'thorough': 4},
+                    'env': {'VERIF_C10_SECONDS': {'quick': 3, 'thorough': 8}},
+                    'timeout': {'quick': 900, 'thorough': 3400}}]},
  'C11': {'level': 'exploration',
          'rule': 'sequential part (model-based, rapid): fill actions of 1,2,63,64,65,127,128,129,16383,16384,16385 rows storing into EVERY column, '
                  'patterned bulk deletes (ranges, strides, all-but-one-bit-per-word, whole words, tail, whole first block), single inserts that '
